@@ -147,8 +147,7 @@ def run(pm, ctx):
             stmts, inputs = cfg.backward_slice(st, names)
             from_cov = bool((set(names) | inputs) & cov_params.get(fn, set()))
             site = f"{fn}: {c.func.attr}(…, {norm_src(slot)[:30]})"
-            has_sqrt = any(isinstance(x, ast.Call) and (call_name(x) or "").split(".")[-1] == "sqrt" for x in ast.walk(slot)) or \
-                any(isinstance(x, ast.Call) and (call_name(x) or "").split(".")[-1] == "sqrt" for s in stmts for x in ast.walk(s))
+            has_sqrt = any(_is_sqrt(x) for x in ast.walk(slot)) or any(_is_sqrt(x) for s in stmts for x in ast.walk(s))
             if c.func.attr == "normal":
                 if from_cov and not has_sqrt:
                     ctx.violation("C20-d", u.relpath, fn, norm_src(_stmt(c))[:160], f"the documented variance `{norm_src(slot)}` is passed as the standard deviation of "
@@ -207,6 +206,21 @@ def run(pm, ctx):
         ctx.ok("C20-e", "multivariate_student_t: rejects inconsistent location/scale shapes")
     else:
         ctx.violation("C20-e", u.relpath, "multivariate_student_t", "shape check", "location/scale shapes are not checked before sampling", line=f2.lineno, site="student: shapes")
+
+
+def _is_sqrt(x):
+    """np.sqrt(.), math.sqrt(.), . ** 0.5, np.power(., 0.5), scipy.linalg.sqrtm / cholesky"""
+    if isinstance(x, ast.Call) and (call_name(x) or "").split(".")[-1] in ("sqrt", "sqrtm", "cholesky"):
+        return True
+    if isinstance(x, ast.BinOp) and isinstance(x.op, ast.Pow):
+        r = x.right
+        if isinstance(r, ast.Constant) and r.value == 0.5:
+            return True
+        if isinstance(r, ast.BinOp) and isinstance(r.op, ast.Div) and norm_src(r) == "1 / 2":
+            return True
+    if isinstance(x, ast.Call) and (call_name(x) or "").split(".")[-1] == "power" and len(x.args) == 2 and isinstance(x.args[1], ast.Constant) and x.args[1].value == 0.5:
+        return True
+    return False
 
 
 def _ax(v):
